@@ -530,9 +530,21 @@ class Rebind:
         self._saved.append((module, name, old))
         setattr(module, name, value)
 
-    def require(self, module, name: str) -> None:
-        if name not in module.__dict__:
-            raise SeamLost(f"{module.__name__} no longer has a module-global '{name}' to rebind")
+    def require(self, module, name: str, optional: bool = False) -> bool:
+        """True if the module-global can be rebound.  With ``optional``: False if the module does not use that
+        library module AT ALL any more (nothing to interpose) - but still SeamLost when it reaches it another way
+        (an alias of the module object, a from-import of one of its functions), which would bypass the seam."""
+        if name in module.__dict__:
+            return True
+        if optional:
+            real = sys.modules.get(name)
+            for k, v in list(module.__dict__.items()):
+                if real is not None and v is real:
+                    raise SeamLost(f"{module.__name__} reaches '{name}' under the alias '{k}'")
+                if callable(v) and getattr(v, "__module__", None) == name:
+                    raise SeamLost(f"{module.__name__} imports '{k}' from '{name}' directly")
+            return False
+        raise SeamLost(f"{module.__name__} no longer has a module-global '{name}' to rebind")
 
     def __enter__(self):
         return self
@@ -556,11 +568,12 @@ def install_fs(rb: Rebind, seam: FsSeam, *, external_data=True, core=True, io_mo
     osp = OsProxy(seam)
     sim_open = make_open(seam)
     if external_data:
-        for n in ("os", "shutil", "tempfile"):
-            rb.require(_ed, n)
+        rb.require(_ed, "os")
         rb.set(_ed, "os", osp)
-        rb.set(_ed, "shutil", make_shutil(seam))
-        rb.set(_ed, "tempfile", make_tempfile(seam))
+        if rb.require(_ed, "shutil", optional=True):
+            rb.set(_ed, "shutil", make_shutil(seam))
+        if rb.require(_ed, "tempfile", optional=True):
+            rb.set(_ed, "tempfile", make_tempfile(seam))
         rb.set(_ed, "open", sim_open)
     if core:
         for n in ("os", "mmap"):
